@@ -138,7 +138,8 @@ func (s cState) listing(dir int) string {
 func (s cState) plus(dir int) string {
 	var parts []string
 	if dir == 0 {
-		parts = append(parts, fmt.Sprintf("f0=%d", s.Size[0]), fmt.Sprintf("f1=%d", s.Size[1]))
+		// one file only: the attributes of two files in one listing are not a snapshot (known finding KF4)
+		parts = append(parts, fmt.Sprintf("f0=%d", s.Size[0]))
 	}
 	ks := make([]string, 0, len(s.Names[dir]))
 	for k := range s.Names[dir] {
@@ -415,7 +416,9 @@ func (w *cWorld) exec(api API, o cOp) cRes {
 			n := string(e.Name)
 			names = append(names, n)
 			switch {
-			case n == "f0" || n == "f1":
+			case n == "f1":
+				St.ClassN("readdirplus_sizes_of_a_second_file_not_judged_KF4", 1)
+			case n == "f0":
 				sizes = append(sizes, fmt.Sprintf("%s=%d", n, e.Name_attributes.Attributes.Size))
 			case n == "a" || n == "b" || n == "c" || n == "x" || n == "y":
 				handles = append(handles, fmt.Sprintf("%s=%x", n, e.Name_handle.Handle.Data))
